@@ -15,16 +15,19 @@
               function of [core] alone;
    * one Gallina function per resumable state: [after_bwt_idx], [after_bitmap_big],
      [after_bitmap_small], [after_selector_mtf], [after_delta_tag], [after_prefix] = the C statements
-     executed from the point just behind a successful NEED(S_x) up to the next NEED site (result
-     [BNeed]), a `return` ([BRet]/[BEob]) or one of the two loop heads that can be reached without
-     passing a NEED: the head of the tree loop ([P_TREE]) and the head of the group loop ([P_GROUP]);
-     the interior loop heads [sel_head], [tree_head], [delta_head], [slow_head] are inlined tails;
+     executed from the point just behind a successful NEED(S_x) (control point [After s], s : [site]) up to
+     the next NEED site (result [BNeed s]), a `return` ([BRet]: an error code, no SAVE(); [BEob]: the end
+     of the block, SAVE() and the final checks follow in [finish]) or one of the two loop heads that can be
+     reached without passing a NEED: the head of the tree loop ([P_TREE]) and the head of the group loop
+     ([P_GROUP]); the interior loop heads [sel_head], [tree_head], [delta_head], [slow_head] are inlined
+     tails.  [step] dispatches on the control point, [onestep] adds NEED and the returns, [run_from]
+     iterates (its fuel [call_fuel] provably suffices: Safe/RetrSafe.v);
    * the fast path of the symbol loop ([fast_loop], NEED_FAST, state in the C locals j, run, runChar,
      shift, taken when limit - next >= 32) and the slow path ([after_prefix], NEED(S_PREFIX), state in
      rs->j, rs->run, rs->runChar, rs->shift) are separate code, as in the C;
-   * NEED(s) itself is [need_at] (reached from above) / the resume prologue in [retrieve] (reached
-     through `case (s):`), NEED_FAST is [need_fast]: reading *next with next == limit is the fault
-     [FInput];
+   * NEED(s) itself is [need_at] (reached from above) / the resume prologue in [retrieve_f] (reached
+     through `case (s):`, including its two assert()s), NEED_FAST is [need_fast]: reading *next with
+     next == limit is the fault [FInput];
    * C integer widths are explicit: unsigned / uint32_t mod 2^32 ([add32]/[sub32] of TreeModel),
      uint64_t mod 2^64, uint16_t / uint8_t stores truncated; a shift by >= the width is a fault;
    * arrays are lists of their declared lengths accessed through bounds-checked [xget]/[xset]
@@ -34,13 +37,18 @@
      re-modelled); tt[] is the list of the cells written so far, most recent first, every write
      checked against MAX_BLOCK_SIZE ([tt_push]);
    * initial contents of the arrays are arbitrary (the state comes from xmalloc()): they are
-     parameters of [init_state];
+     parameters of [init_core] (no "uninitialised" marker is modelled, except for perm[] inside TreeModel:
+     the theorems hold for every content, so no result depends on it);
+   * the flag [fast_ok] of [group_head]/[step]/[run_from]/[retrieve_f]/[retr_chunks_f] is [true] in
+     [retrieve]/[retr_chunks] (the model of the C); [false] switches the fast path off and gives the
+     reference machine used in the proofs (Safe/RetrChunk.v);
    * constants and tables regenerated from the source: Gen/Consts.v, Gen/DecTabs.v (in particular the
      delta range check, the selector clamp and the two run-accumulation guards [run_acc_guards]).
 
    One call:  [retrieve st]  =  RESTORE(); switch (rs->state) ...        with [attach]/[attach_eof]
-   standing for what expand.c's attach() stores in the struct bitstream before the call.
-   [retr_chunks] feeds a list of chunks, then end of input.
+   standing for what expand.c's attach() stores in the struct bitstream before the call (a non-empty
+   part of the input; at the end of the input data = limit = NULL and eof = (live < 32)).
+   [retr_chunks] feeds a list of chunks, then end of input; it also returns the chunks never attached.
    Tied to src/decode.c by checks/retr_part.py (harness/retr_h.c vs Extract/ExtractRetr.v). *)
 From Coq Require Import List NArith Arith Bool.
 From LBZ Require Import Gen.Consts Gen.DecTabs Safe.TreeModel.
